@@ -334,8 +334,48 @@ fn p_mock_assert<C: Mk>(toks: &[&str]) -> String {
     format!("OK {}", n)
 }
 
+/// MockDisplay::default() and MockDisplay::new(): equal, empty, and both with the documented flags
+/// (overdraw and out-of-bounds drawing are checked, i.e. both panic)
+fn p_mock_default<C: Mk>(_toks: &[&str]) -> String {
+    let c = C::mk(1 % C::nvalues() as u32);
+    let makers: [(&str, fn() -> MockDisplay<C>); 2] = [("MockDisplay::default()", MockDisplay::<C>::default), ("MockDisplay::new()", MockDisplay::<C>::new)];
+    if MockDisplay::<C>::default() != MockDisplay::<C>::new() { return "FAIL MockDisplay::default() != MockDisplay::new()".into(); }
+    for (name, mk) in makers.iter() {
+        let d = mk();
+        if let Err(e) = agree(&d, &Ref::default(), &[]) { return format!("FAIL {} is not empty: {}", name, e); }
+        if d.diff(&mk()) != MockDisplay::<Rgb888>::new() { return format!("FAIL {}: diff of two new displays is not empty", name); }
+        // allow_overdraw defaults to false
+        let mut d1 = mk();
+        d1.draw_pixel(Point::new(3, 4), c);
+        match guarded(|| d1.draw_pixel(Point::new(3, 4), c)) {
+            Err(k) if k == "overdraw" => {}
+            other => return format!("FAIL {}: drawing a pixel twice gave {:?}, the default allow_overdraw must be false", name, other.map(|_| "no panic")),
+        }
+        // allow_out_of_bounds_drawing defaults to false
+        let mut d2 = mk();
+        match guarded(|| d2.draw_pixel(Point::new(64, 0), c)) {
+            Err(k) if k == "oob" => {}
+            other => return format!("FAIL {}: drawing outside gave {:?}, the default allow_out_of_bounds_drawing must be false", name, other.map(|_| "no panic")),
+        }
+        // the same through the DrawTarget entry points
+        let mut d3 = mk();
+        match guarded(|| { let _ = d3.fill_solid(&Rectangle::new(Point::new(63, 63), Size::new(2, 1)), c); }) {
+            Err(k) if k == "oob" => {}
+            other => return format!("FAIL {}: fill_solid over the edge gave {:?}", name, other.map(|_| "no panic")),
+        }
+        let mut d4 = mk();
+        let _ = d4.clear(c);
+        match guarded(|| { let _ = d4.clear(c); }) {
+            Err(k) if k == "overdraw" => {}
+            other => return format!("FAIL {}: clear twice gave {:?}", name, other.map(|_| "no panic")),
+        }
+    }
+    "OK 2".into()
+}
+
 pub fn run(suite: &str, a: &[&str]) -> Option<String> {
     Some(match suite {
+        "p_mock_default" => dispatch!(a[0], p_mock_default, &a[1..]),
         "p_mock_assert" => dispatch!(a[0], p_mock_assert, &a[1..]),
         "p_mock_char" => dispatch!(a[0], p_mock_char, &a[1..]),
         "mock_points" => dispatch!(a[0], mock_points, &a[1..]),
